@@ -449,3 +449,21 @@ Definition template_entries (prefixes : list str) (tpls : list (str * list str))
 
 Definition component_table (prefixes : list str) (tpls : list (str * list str)) : res (ctable str) :=
   select_components (template_entries prefixes tpls).
+
+(* ------------------------------------------------------------------ which definition a call site runs *)
+
+(* the `component!` macro 150-154: `self.tera.components.get(name)` — the global, priority-built
+   table — FIRST; `self.template.components[name]` (the components of the template the VM runs
+   for: only a one-off `render_str` template can hold one the table lacks) as the fallback;
+   indexing a missing name would panic *)
+Fixpoint local_get {A} (l : list (str * A)) (n : str) : option A :=
+  match l with
+  | [] => None
+  | (n', a) :: t => if str_eqb n' n then Some a else local_get t n
+  end.
+
+Definition lookup_component {A} (table : ctable A) (local : list (str * A)) (n : str) : res A :=
+  match ct_get table n with
+  | Some (a, _) => ROk a
+  | None => match local_get local n with Some a => ROk a | None => RErr ErrPanic end
+  end.
